@@ -111,6 +111,36 @@ def run(ctx):
         ok = len(gf) == 1 and [pathx.desc(a) for a in gf[0]["a"]][1:] == ["filters", "ignores", "whitelist", "ignore_files", "exts"]
         ctx.require(ok, "R12.1", "globset-args", "filters, ignores, whitelist, ignore_files and extensions are handed to GlobsetFilterer::new in that order", loc,
                     detail=str([pathx.desc(a) for a in gf[0]["a"]]) if gf else "")
+        # --filter-file: every listed file is read and all its lines are appended to the same `filters` that goes to the filterer
+        ffl = set()
+        for p_ in ps[:1] if ps else []:
+            pass
+        for p_ in paths_of(wn):
+            for e in p_.ev:
+                if e[0] == "loop" and e[2].replace("^", "") == "for args.filtering.filter_files":
+                    ffl |= set(e[1])
+        okff = bool(ffl)
+        for it in ffl:
+            names = [strip_generics(x[1]).split("::")[-1] for x in it if x[0] == "call"]
+            ext = [[pathx.desc(a) for a in x[2]["a"]] for x in it if x[0] == "call" and strip_generics(x[1]).endswith("Extend::extend")]
+            okff = okff and "read_filter_file" in names and len(ext) == 1 and ext[0][0].lstrip("^") == "filters" and "read_filter_file(filter_file)" in ext[0][1] \
+                and ("loop-break",) not in it
+        ctx.require(okff, "R12.1", "filter-files-read", "every --filter-file is read and its lines are appended to the filter patterns", loc,
+                    fail="the --filter-file entries are no longer all read into the filter patterns")
+        # the whitelist is `the watched paths that are files`; the program filters are installed exactly when some were given
+        wl = [c for c in facts.descendants(wn) if c.kind == "closure" and pathx.desc(thir.peel(thir.root(c))) in ("Path::is_file(p)", "PathBuf::is_file(p)")]
+        wl_lets = [pathx.desc(st["i"]) for st in thir.walk(thir.root(wn)) if isinstance(st, dict) and st.get("k") == "let" and st["p"].get("k") == "bind" and st["p"].get("n") == "whitelist"
+                   and isinstance(st.get("i"), dict)]
+        ctx.require(len(wl) == 1 and len(wl_lets) == 1 and "args.filtering.paths" in wl_lets[0].replace("^", "") and wl_lets[0].startswith("Iterator::filter("), "R12.1", "whitelist-files",
+                    "the whitelist handed to the path filterer is the explicitly watched paths that are files", loc, detail=str(wl_lets)[:200],
+                    fail="the whitelist is no longer `explicitly watched paths that are files` (%s)" % str(wl_lets)[:160])
+        pg = [v for k, v in (fin[-1]["f"] if fin else []) if k == "progs"]
+        okp = False
+        if pg and thir.peel(pg[0]).get("k") == "if":
+            c_, t_, e_ = pathx.if_parts(thir.peel(pg[0]))
+            okp = c_.replace("^", "") == "Vec::is_empty(args.filtering.filter_programs_parsed)" and pathx.desc(t_) == "None" and "FilterProgs::new(args)" in pathx.desc(e_).replace("^", "")
+        ctx.require(okp, "R12.1", "progs-installed", "filter programs are installed exactly when some were given", loc,
+                    fail="--filter-prog entries are no longer installed exactly when given")
         # scoping of explicit patterns (R12.4)
         cl = [c for c in facts.descendants(wn) if c.kind == "closure"]
         scoped = 0
@@ -121,6 +151,16 @@ def run(ctx):
                 if "workdir" in repr(inner):
                     scoped += 1
         ctx.require(scoped >= 2, "R12.4", "patterns-scoped-to-workdir", "--filter and --ignore patterns are paired with the working directory", loc, detail=str(scoped))
+    except Skip:
+        pass
+
+    # ---- the filterer built from the arguments is the one installed
+    try:
+        rw = body_of(ctx, "R12.1", "watchexec_cli::run_watchexec")
+        inst = [[pathx.desc(a).replace("^", "") for a in nd["a"]] for c, nd in thir.calls_in(thir.root(rw)) if strip_generics(c).endswith("Config::filterer")]
+        ctx.require(len(inst) == 1 and inst[0][0] == "config" and "WatchexecFilterer::new(args)" in inst[0][1], "R12.1", "filterer-installed",
+                    "run_watchexec installs WatchexecFilterer::new(&args) as the configuration's filterer", rw.loc(rw.line), detail=str(inst)[:200],
+                    fail="the filterer built from the command line is not installed (%s): no explicit filter option has any effect" % str(inst)[:120])
     except Skip:
         pass
 
